@@ -21,6 +21,11 @@ func (g *Gen) value(st *State, v ssa.Value) Val {
 	case *ssa.Builtin:
 		return FuncV{}
 	}
+	if st != nil && st.regs != nil {
+		if r, ok := st.regs[v]; ok {
+			return r
+		}
+	}
 	if r, ok := g.regs[v]; ok {
 		return r
 	}
@@ -99,6 +104,7 @@ func hashStr(s string) uint32 {
 }
 
 func (g *Gen) execBlock(b *ssa.BasicBlock, st *State) {
+	g.regs = st.regs
 	lastLine := ""
 	for _, in := range b.Instrs {
 		if p := in.Pos(); p.IsValid() {
@@ -169,11 +175,40 @@ func (g *Gen) execInstr(st *State, in ssa.Instruction) {
 	case *ssa.Call:
 		g.regs[x] = g.call(st, x, x.Common(), x.Type())
 	case *ssa.Defer:
-		st.defers = append(st.defers, deferEntry{x, "true"})
+		// Go evaluates the function value and the arguments of a deferred call at the defer statement
+		vals := map[ssa.Value]Val{}
+		c := x.Common()
+		// the operands' own defining chain too (the monitor rule looks through *(&base.mu) to base)
+		var capture func(v ssa.Value, depth int)
+		capture = func(v ssa.Value, depth int) {
+			if r, ok := st.regs[v]; ok {
+				vals[v] = r
+			}
+			if in, ok := v.(ssa.Instruction); ok && depth > 0 {
+				for _, op := range in.Operands(nil) {
+					if *op != nil {
+						capture(*op, depth-1)
+					}
+				}
+			}
+		}
+		for _, a := range c.Args {
+			vals[a] = g.value(st, a)
+			capture(a, 3)
+		}
+		switch c.Value.(type) {
+		case *ssa.Function, *ssa.Builtin:
+		default:
+			vals[c.Value] = g.value(st, c.Value)
+		}
+		st.defers = append(st.defers, deferEntry{x, "true", vals})
 	case *ssa.RunDefers:
 		ds := st.defers
 		st.defers = nil
 		for i := len(ds) - 1; i >= 0; i-- {
+			for k, v := range ds[i].vals {
+				st.regs[k] = v
+			}
 			if ds[i].guard == "true" {
 				g.call(st, ds[i].d, ds[i].d.Common(), nil)
 				continue
@@ -186,6 +221,7 @@ func (g *Gen) execInstr(st *State, in ssa.Instruction) {
 			s2.pc = g.defBool("pc", and(st.pc, not(ds[i].guard)))
 			merged := g.join(nil, []edge{{nil, s1, s1.pc}, {nil, s2, s2.pc}})
 			*st = *merged
+			g.regs = st.regs
 			st.defers = nil
 		}
 	case *ssa.Go:
